@@ -38,6 +38,7 @@ impl Scn {
         self.run(&bita_bin(), args, stdin, env)
     }
     pub fn run(&self, prog: &str, args: &[&str], stdin: Option<&[u8]>, env: &[(&str, &str)]) -> (i32, String) {
+        use std::io::Read;
         let mut c = Command::new(prog);
         c.args(args).current_dir(&self.dir).stdout(Stdio::piped()).stderr(Stdio::piped());
         for (k, v) in env { c.env(k, v); }
@@ -49,9 +50,26 @@ impl Scn {
             let d = d.to_vec();
             std::thread::spawn(move || { let _ = si.write_all(&d); });
         }
-        let out = child.wait_with_output().unwrap();
-        let code = out.status.code().unwrap_or(-(out.status.to_string().len() as i32));
-        (code, String::from_utf8_lossy(&out.stdout).to_string() + &String::from_utf8_lossy(&out.stderr))
+        let mut so = child.stdout.take().unwrap();
+        let mut se = child.stderr.take().unwrap();
+        let t1 = std::thread::spawn(move || { let mut v = vec![]; let _ = so.read_to_end(&mut v); v });
+        let t2 = std::thread::spawn(move || { let mut v = vec![]; let _ = se.read_to_end(&mut v); v });
+        // watchdog: a command that neither finishes nor fails is killed and reported with status -99 (C15)
+        let start = std::time::Instant::now();
+        let status = loop {
+            match child.try_wait() {
+                Ok(Some(st)) => break Some(st),
+                Ok(None) => {
+                    if start.elapsed() > std::time::Duration::from_secs(180) { let _ = child.kill(); let _ = child.wait(); break None; }
+                    std::thread::sleep(std::time::Duration::from_millis(5));
+                }
+                Err(_) => break None,
+            }
+        };
+        let out = t1.join().unwrap_or_default();
+        let err = t2.join().unwrap_or_default();
+        let code = match status { Some(st) => st.code().unwrap_or(-(st.to_string().len() as i32)), None => -99 };
+        (code, String::from_utf8_lossy(&out).to_string() + &String::from_utf8_lossy(&err) + if status.is_none() { "\nTIMEOUT: killed by the harness after 180 s" } else { "" })
     }
 }
 
